@@ -1,19 +1,1133 @@
-//! query engine (ops starting with `q`).
-#![allow(unused)]
+//! Query engine (C09, C10): ops starting with `q` against `FindNodeQuery` / `PredicateQuery`
+//! (driven directly with explicit time) and `QueryPool` (real time, no expiring timeouts).
+//!
+//! Single query:
+//!   qnew V PAR NR PTO TARGET INIT    V = f | p; INIT = `id:flag,…` | `-`
+//!   qnext NOW                         → wait:<id> | wait:- | cap | fin
+//!   qok REF CLOSER / qfail REF        REF = @k (k-th outstanding request) | %k (k-th request ever
+//!                                     emitted) | <64 hex>;  CLOSER = `id:flag,…` | `-`
+//!   qpeek / qdrive NOW CAP / qres
+//! Pool: qpnew TIMEOUT / qpadd V PAR NR PTO TARGET INIT / qpok ID REF CLOSER / qpfail ID REF /
+//!   qppoll NOW CAP (poll until Idle / Waiting(None); events grouped by query id)
+//!
+//! The monitors (`!MON C09 …`, `!MON C10 …`) are evaluated on the harness' own ledger of calls and
+//! return values; they never look at the model.
 use crate::rng::Rng;
 use crate::util::*;
 use crate::{Runner, Stats};
+use discv5::enr::NodeId;
+use discv5::verif::query::{
+    QueryState, ReportedPeer, VFindNodeQuery, VPool, VPoolEvent, VPredicateQuery,
+};
+use std::collections::{BTreeMap, BTreeSet};
+use std::panic::AssertUnwindSafe;
+use std::time::{Duration, Instant};
 
-#[derive(Default)]
-pub struct QueryRunner;
+type Id = [u8; 32];
 
-impl Runner for QueryRunner {
-    fn reset(&mut self) {}
-    fn step(&mut self, _line: &str, out: &mut Vec<String>, _stats: &mut Stats) {
-        out.push("bad-op".into());
+fn parse_id(s: &str) -> Option<Id> {
+    if s.len() != 64 {
+        return None;
+    }
+    hex::decode(s).ok()?.try_into().ok()
+}
+
+fn parse_pairs(s: &str) -> Option<Vec<(Id, bool)>> {
+    if s == "-" {
+        return Some(vec![]);
+    }
+    s.split(',')
+        .map(|item| {
+            let (i, f) = item.split_once(':')?;
+            let f = match f {
+                "1" => true,
+                "0" => false,
+                _ => return None,
+            };
+            Some((parse_id(i)?, f))
+        })
+        .collect()
+}
+
+fn num(s: &str) -> Option<u64> {
+    if s.is_empty() || !s.bytes().all(|b| b.is_ascii_digit()) {
+        return None;
+    }
+    s.parse().ok()
+}
+
+fn nid(i: &Id) -> NodeId {
+    NodeId::new(i)
+}
+
+fn show_ids(l: &[Id]) -> String {
+    if l.is_empty() {
+        "-".into()
+    } else {
+        l.iter().map(hex::encode).collect::<Vec<_>>().join(",")
     }
 }
 
-pub fn gen_case(_rng: &mut Rng, _tier: &str, _profile: &str, _stats: &mut Stats) -> Vec<String> {
-    Vec::new()
+fn xor(a: &Id, b: &Id) -> Id {
+    let mut o = [0u8; 32];
+    for i in 0..32 {
+        o[i] = a[i] ^ b[i];
+    }
+    o
+}
+
+fn short(i: &Id) -> String {
+    hex::encode(&i[24..])
+}
+
+// ---------------------------------------------------------------------------------------------
+// ledger + monitors
+
+#[derive(Default)]
+struct Ledger {
+    pred: bool,
+    par: usize,
+    nr: usize,
+    pto: u64,
+    target: Id,
+    /// ids the query was told about: the (truncated) initial list and every closer list
+    known: BTreeSet<Id>,
+    /// ids that were reported at least once with a matching record
+    flag_true: BTreeSet<Id>,
+    /// candidates the query certainly holds
+    learned: BTreeSet<Id>,
+    emitted: Vec<Id>,
+    outstanding: Vec<Id>,
+    emit_now: BTreeMap<Id, u64>,
+    had_event: BTreeSet<Id>,
+    answered: BTreeSet<Id>,
+    maybe_stalled: bool,
+    finished: bool,
+    saw_cap: bool,
+    saw_late: bool,
+}
+
+impl Ledger {
+    fn new(pred: bool, par: usize, nr: usize, pto: u64, target: Id, init: &[(Id, bool)]) -> Self {
+        let mut l = Ledger { pred, par, nr, pto, target, ..Default::default() };
+        for (i, f) in init.iter().take(nr) {
+            l.known.insert(*i);
+            l.learned.insert(*i);
+            if *f {
+                l.flag_true.insert(*i);
+            }
+        }
+        l
+    }
+
+    /// `next` handed out `p` at time `now`.
+    fn on_emit(&mut self, p: Id, now: u64, out: &mut Vec<String>) {
+        if self.emitted.contains(&p) {
+            out.push(format!("!MON C09 recontact peer={}", short(&p)));
+        }
+        let pto = self.pto;
+        let inflight = self
+            .outstanding
+            .iter()
+            .filter(|o| self.emit_now.get(*o).map(|t| t.saturating_add(pto) > now).unwrap_or(false))
+            .count();
+        let bound = if self.maybe_stalled { self.par.max(self.nr) } else { self.par };
+        if inflight >= bound {
+            out.push(format!("!MON C09 inflight-exceeds inflight-before={} bound={}", inflight, bound));
+        }
+        if !self.known.contains(&p) {
+            out.push(format!("!MON C09 unknown-peer-emitted peer={}", short(&p)));
+        }
+        self.emitted.push(p);
+        self.outstanding.push(p);
+        self.emit_now.insert(p, now);
+        if self.emitted.len() > self.known.len() {
+            out.push(format!(
+                "!MON C09 too-many-requests requests={} known={}",
+                self.emitted.len(),
+                self.known.len()
+            ));
+        }
+    }
+
+    fn on_success(&mut self, p: Id, closer: &[(Id, bool)], now: u64, stats: &mut Stats) {
+        let was_emitted = self.emitted.contains(&p);
+        if was_emitted {
+            let late = self.emit_now.get(&p).map(|t| t.saturating_add(self.pto) <= now).unwrap_or(false);
+            if self.had_event.contains(&p) {
+                stats.bump("q.ok.repeat");
+            } else if late {
+                stats.bump("q.ok.late");
+                self.saw_late = true;
+            } else {
+                stats.bump("q.ok.first");
+            }
+            self.answered.insert(p);
+            self.maybe_stalled = true;
+            if !self.had_event.contains(&p) && !self.finished {
+                // certainly delivered to a Waiting / Unresponsive peer: its peers are candidates
+                for (i, _) in closer {
+                    self.learned.insert(*i);
+                }
+            }
+            self.had_event.insert(p);
+            self.outstanding.retain(|o| o != &p);
+        } else {
+            stats.bump("q.ok.uncontacted");
+        }
+        for (i, f) in closer {
+            self.known.insert(*i);
+            if *f {
+                self.flag_true.insert(*i);
+            }
+        }
+    }
+
+    fn on_failure(&mut self, p: Id, stats: &mut Stats) {
+        if self.emitted.contains(&p) {
+            stats.bump(if self.had_event.contains(&p) { "q.fail.repeat" } else { "q.fail.first" });
+            self.had_event.insert(p);
+            self.outstanding.retain(|o| o != &p);
+        } else {
+            stats.bump("q.fail.uncontacted");
+        }
+    }
+
+    /// Checks a result. `complete` = the query itself reported `Finished` (not the pool timeout).
+    fn check_result(&self, res: &[Id], complete: bool, out: &mut Vec<String>) {
+        if res.len() > self.nr {
+            out.push(format!("!MON C10 result-too-long len={} k={}", res.len(), self.nr));
+        }
+        for w in res.windows(2) {
+            if xor(&w[0], &self.target) >= xor(&w[1], &self.target) {
+                out.push(format!("!MON C10 result-not-sorted-distinct at={}", short(&w[1])));
+                break;
+            }
+        }
+        for r in res {
+            if !self.answered.contains(r) {
+                out.push(format!("!MON C10 result-peer-never-answered peer={}", short(r)));
+                break;
+            }
+        }
+        if self.pred {
+            for r in res {
+                if !self.flag_true.contains(r) {
+                    out.push(format!("!MON C10 predicate-mismatch peer={}", short(r)));
+                    break;
+                }
+            }
+        }
+        if complete && res.len() < self.nr {
+            for c in &self.learned {
+                if !self.emitted.contains(c) {
+                    out.push(format!(
+                        "!MON C10 short-result-uncontacted-candidate len={} k={} peer={}",
+                        res.len(),
+                        self.nr,
+                        short(c)
+                    ));
+                    break;
+                }
+            }
+        }
+    }
+
+    fn resolve(&self, r: &str) -> Ref {
+        if let Some(k) = r.strip_prefix('@') {
+            match num(k) {
+                Some(k) if self.outstanding.is_empty() => {
+                    let _ = k;
+                    Ref::None
+                }
+                Some(k) => Ref::Peer(self.outstanding[(k % self.outstanding.len() as u64) as usize]),
+                None => Ref::Bad,
+            }
+        } else if let Some(k) = r.strip_prefix('%') {
+            match num(k) {
+                Some(_) if self.emitted.is_empty() => Ref::None,
+                Some(k) => Ref::Peer(self.emitted[(k % self.emitted.len() as u64) as usize]),
+                None => Ref::Bad,
+            }
+        } else {
+            match parse_id(r) {
+                Some(i) => Ref::Peer(i),
+                None => Ref::Bad,
+            }
+        }
+    }
+}
+
+enum Ref {
+    Peer(Id),
+    None,
+    Bad,
+}
+
+// ---------------------------------------------------------------------------------------------
+// the implementation under test
+
+enum Qx {
+    F(VFindNodeQuery),
+    P(VPredicateQuery),
+}
+
+fn reported(closer: &[(Id, bool)]) -> Vec<ReportedPeer> {
+    closer.iter().map(|(i, f)| ReportedPeer { id: nid(i), flag: *f }).collect()
+}
+
+impl Qx {
+    fn next(&mut self, at: Instant) -> Option<QueryState<NodeId>> {
+        no_panic(AssertUnwindSafe(|| match self {
+            Qx::F(q) => q.next(at),
+            Qx::P(q) => q.next(at),
+        }))
+    }
+    fn on_success(&mut self, p: &Id, closer: &[(Id, bool)]) -> Option<()> {
+        no_panic(AssertUnwindSafe(|| match self {
+            Qx::F(q) => q.on_success(&nid(p), closer.iter().map(|(i, _)| nid(i)).collect()),
+            Qx::P(q) => q.on_success(&nid(p), &reported(closer)),
+        }))
+    }
+    fn on_failure(&mut self, p: &Id) -> Option<()> {
+        no_panic(AssertUnwindSafe(|| match self {
+            Qx::F(q) => q.on_failure(&nid(p)),
+            Qx::P(q) => q.on_failure(&nid(p)),
+        }))
+    }
+    fn suffix(&self) -> String {
+        match self {
+            Qx::P(_) => "-".into(),
+            Qx::F(q) => suffix_of_debug(&q.debug()),
+        }
+    }
+}
+
+fn digits_after<'a>(s: &'a str, pat: &str) -> Option<&'a str> {
+    let i = s.find(pat)? + pat.len();
+    let rest = &s[i..];
+    let n = rest.bytes().take_while(|b| b.is_ascii_digit()).count();
+    Some(&rest[..n])
+}
+
+/// `nw=N prog=I<n>|S|F st=<state><peers_returned>,…` from the derived `Debug` of `FindNodeQuery`.
+fn suffix_of_debug(d: &str) -> String {
+    let nw = digits_after(d, "num_waiting: ").unwrap_or("?");
+    let prog = match d.find("progress: ").map(|i| &d[i + 10..]) {
+        Some(r) if r.starts_with("Iterating") => format!("I{}", digits_after(r, "no_progress: ").unwrap_or("?")),
+        Some(r) if r.starts_with("Stalled") => "S".to_string(),
+        Some(r) if r.starts_with("Finished") => "F".to_string(),
+        _ => "?".to_string(),
+    };
+    let mut st = Vec::new();
+    let mut rest = d;
+    while let Some(i) = rest.find("peers_returned: ") {
+        rest = &rest[i + 16..];
+        let n = rest.bytes().take_while(|b| b.is_ascii_digit()).count();
+        let returned = &rest[..n];
+        let state = rest.find("state: ").map(|j| &rest[j + 7..j + 8]).unwrap_or("?");
+        st.push(format!("{}{}", state, returned));
+    }
+    format!("nw={} prog={} st={}", nw, prog, if st.is_empty() { "-".to_string() } else { st.join(",") })
+}
+
+fn show_state(s: &QueryState<NodeId>) -> String {
+    match s {
+        QueryState::Waiting(Some(p)) => format!("wait:{}", hex::encode(p.raw())),
+        QueryState::Waiting(None) => "wait:-".into(),
+        QueryState::WaitingAtCapacity => "cap".into(),
+        QueryState::Finished => "fin".into(),
+    }
+}
+
+pub struct QueryRunner {
+    base: Instant,
+    q: Option<Qx>,
+    led: Ledger,
+    last_now: u64,
+    pool: Option<VPool>,
+    pleds: BTreeMap<usize, Ledger>,
+    returned: BTreeSet<usize>,
+}
+
+impl Default for QueryRunner {
+    fn default() -> Self {
+        QueryRunner {
+            base: Instant::now(),
+            q: None,
+            led: Ledger::default(),
+            last_now: 0,
+            pool: None,
+            pleds: BTreeMap::new(),
+            returned: BTreeSet::new(),
+        }
+    }
+}
+
+impl QueryRunner {
+    fn at(&self, now: u64) -> Instant {
+        self.base + Duration::from_millis(now)
+    }
+
+    /// `next(now)` on the single query + ledger + monitors.
+    fn do_next(&mut self, now: u64, out: &mut Vec<String>, stats: &mut Stats) -> Option<QueryState<NodeId>> {
+        let at = self.at(now);
+        let r = self.q.as_mut()?.next(at);
+        match &r {
+            None => out.push("!MON C09 next-panicked".into()),
+            Some(QueryState::Waiting(Some(p))) => {
+                stats.bump("q.next.emit");
+                self.led.on_emit(p.raw(), now, out);
+            }
+            Some(QueryState::Waiting(None)) => stats.bump("q.next.none"),
+            Some(QueryState::WaitingAtCapacity) => {
+                stats.bump("q.next.cap");
+                self.led.saw_cap = true;
+            }
+            Some(QueryState::Finished) => {
+                stats.bump("q.next.fin");
+                self.led.finished = true;
+            }
+        }
+        r
+    }
+
+    fn do_success(&mut self, p: Id, closer: &[(Id, bool)], now: u64, out: &mut Vec<String>, stats: &mut Stats) {
+        self.led.on_success(p, closer, now, stats);
+        if let Some(q) = self.q.as_mut() {
+            if q.on_success(&p, closer).is_none() {
+                out.push("!MON C09 on-success-panicked".into());
+            }
+        }
+    }
+
+    fn do_failure(&mut self, p: Id, out: &mut Vec<String>, stats: &mut Stats) {
+        self.led.on_failure(p, stats);
+        if let Some(q) = self.q.as_mut() {
+            if q.on_failure(&p).is_none() {
+                out.push("!MON C09 on-failure-panicked".into());
+            }
+        }
+    }
+}
+
+impl Runner for QueryRunner {
+    fn reset(&mut self) {
+        *self = QueryRunner::default();
+    }
+
+    fn step(&mut self, line: &str, out: &mut Vec<String>, stats: &mut Stats) {
+        let t: Vec<&str> = line.split(' ').collect();
+        match t.as_slice() {
+            ["qnew", v, par, nr, pto, target, init] => {
+                let r = (|| {
+                    let pred = match *v {
+                        "f" => false,
+                        "p" => true,
+                        _ => return None,
+                    };
+                    Some((pred, num(par)? as usize, num(nr)? as usize, num(pto)?, parse_id(target)?, parse_pairs(init)?))
+                })();
+                let Some((pred, par, nr, pto, target, init)) = r else {
+                    out.push("bad-op".into());
+                    return;
+                };
+                stats.bump(if pred { "q.new.predicate" } else { "q.new.closest" });
+                let q = no_panic(|| {
+                    if pred {
+                        Qx::P(VPredicateQuery::with_config(
+                            par,
+                            nr,
+                            Duration::from_millis(pto),
+                            nid(&target),
+                            init.iter().map(|(i, f)| (nid(i), *f)).collect(),
+                        ))
+                    } else {
+                        Qx::F(VFindNodeQuery::with_config(
+                            par,
+                            nr,
+                            Duration::from_millis(pto),
+                            nid(&target),
+                            init.iter().map(|(i, _)| nid(i)).collect(),
+                        ))
+                    }
+                });
+                let Some(q) = q else {
+                    out.push("!MON C09 constructor-panicked".into());
+                    out.push("panic".into());
+                    return;
+                };
+                self.led = Ledger::new(pred, par, nr, pto, target, &init);
+                self.last_now = 0;
+                out.push(format!("ok {}", q.suffix()));
+                self.q = Some(q);
+            }
+            ["qnext", now] => {
+                let Some(now) = num(now) else {
+                    out.push("bad-op".into());
+                    return;
+                };
+                if self.q.is_none() {
+                    out.push("none".into());
+                    return;
+                }
+                if now < self.last_now {
+                    out.push("bad-op".into());
+                    return;
+                }
+                self.last_now = now;
+                match self.do_next(now, out, stats) {
+                    Some(s) => out.push(format!("{} {}", show_state(&s), self.q.as_ref().unwrap().suffix())),
+                    None => out.push("panic".into()),
+                }
+            }
+            ["qok", r, closer] => {
+                let Some(closer) = parse_pairs(closer) else {
+                    out.push("bad-op".into());
+                    return;
+                };
+                if self.q.is_none() {
+                    out.push("none".into());
+                    return;
+                }
+                match self.led.resolve(r) {
+                    Ref::Bad => out.push("bad-op".into()),
+                    Ref::None => out.push("none".into()),
+                    Ref::Peer(p) => {
+                        let now = self.last_now;
+                        self.do_success(p, &closer, now, out, stats);
+                        out.push(format!("ok {} {}", hex::encode(p), self.q.as_ref().unwrap().suffix()));
+                    }
+                }
+            }
+            ["qfail", r] => {
+                if self.q.is_none() {
+                    out.push("none".into());
+                    return;
+                }
+                match self.led.resolve(r) {
+                    Ref::Bad => out.push("bad-op".into()),
+                    Ref::None => out.push("none".into()),
+                    Ref::Peer(p) => {
+                        self.do_failure(p, out, stats);
+                        out.push(format!("ok {} {}", hex::encode(p), self.q.as_ref().unwrap().suffix()));
+                    }
+                }
+            }
+            ["qpeek"] => match &self.q {
+                None => out.push("none".into()),
+                Some(Qx::P(_)) => out.push("na".into()),
+                Some(Qx::F(q)) => {
+                    let res: Vec<Id> = q.peek_result().iter().map(|n| n.raw()).collect();
+                    self.led.check_result(&res, self.led.finished, out);
+                    out.push(format!("res {}", show_ids(&res)));
+                }
+            },
+            ["qdrive", now, cap] => {
+                let (Some(mut now), Some(cap)) = (num(now), num(cap)) else {
+                    out.push("bad-op".into());
+                    return;
+                };
+                if self.q.is_none() {
+                    out.push("none".into());
+                    return;
+                }
+                if now < self.last_now {
+                    out.push("bad-op".into());
+                    return;
+                }
+                let mut n = 0u64;
+                let mut fin = false;
+                let mut panicked = false;
+                for _ in 0..cap {
+                    match self.do_next(now, out, stats) {
+                        None => {
+                            panicked = true;
+                            break;
+                        }
+                        Some(QueryState::Finished) => {
+                            fin = true;
+                            break;
+                        }
+                        Some(QueryState::Waiting(Some(p))) => {
+                            let p = p.raw();
+                            if n % 2 == 0 {
+                                self.do_success(p, &[], now, out, stats);
+                            } else {
+                                self.do_failure(p, out, stats);
+                            }
+                            n += 1;
+                        }
+                        Some(_) => {
+                            for o in self.led.outstanding.clone() {
+                                self.do_failure(o, out, stats);
+                            }
+                            now += self.led.pto + 1;
+                        }
+                    }
+                }
+                self.last_now = now;
+                if panicked {
+                    out.push("panic".into());
+                    return;
+                }
+                if !fin && self.led.par >= 1 && self.led.nr >= 1 {
+                    out.push(format!("!MON C09 no-termination polls={}", cap));
+                }
+                stats.bump(if fin { "q.drive.fin" } else { "q.drive.stuck" });
+                out.push(format!(
+                    "drv {} {} {}",
+                    n,
+                    if fin { "fin" } else { "stuck" },
+                    self.q.as_ref().unwrap().suffix()
+                ));
+            }
+            ["qres"] => match self.q.take() {
+                None => out.push("none".into()),
+                Some(q) => {
+                    let res = no_panic(AssertUnwindSafe(|| match q {
+                        Qx::F(q) => q.into_result(),
+                        Qx::P(q) => q.into_result(),
+                    }));
+                    let Some(res) = res else {
+                        out.push("!MON C10 into-result-panicked".into());
+                        out.push("panic".into());
+                        return;
+                    };
+                    let res: Vec<Id> = res.iter().map(|n| n.raw()).collect();
+                    self.led.check_result(&res, self.led.finished, out);
+                    let l = &self.led;
+                    stats.bump(if res.is_empty() {
+                        "q.res.empty"
+                    } else if res.len() < l.nr {
+                        "q.res.short"
+                    } else {
+                        "q.res.full"
+                    });
+                    if l.emitted.len() >= 3 && (l.saw_cap || l.saw_late) {
+                        stats.bump("q.nt.c09");
+                    }
+                    if l.finished && !res.is_empty() && l.emitted.len() >= 2 {
+                        stats.bump("q.nt.c10");
+                    }
+                    out.push(format!("res {}", show_ids(&res)));
+                }
+            },
+            // ---------------------------------------------------------------- pool
+            ["qpnew", tmo] => {
+                let Some(tmo) = num(tmo) else {
+                    out.push("bad-op".into());
+                    return;
+                };
+                self.pool = Some(VPool::new(Duration::from_millis(tmo)));
+                self.pleds.clear();
+                self.returned.clear();
+                stats.bump("q.pool.new");
+                out.push("ok".into());
+            }
+            ["qpadd", v, par, nr, pto, target, init] => {
+                let r = (|| {
+                    let pred = match *v {
+                        "f" => false,
+                        "p" => true,
+                        _ => return None,
+                    };
+                    Some((pred, num(par)? as usize, num(nr)? as usize, num(pto)?, parse_id(target)?, parse_pairs(init)?))
+                })();
+                let Some((pred, par, nr, pto, target, init)) = r else {
+                    out.push("bad-op".into());
+                    return;
+                };
+                let Some(pool) = self.pool.as_mut() else {
+                    out.push("none".into());
+                    return;
+                };
+                let id = no_panic(AssertUnwindSafe(|| {
+                    if pred {
+                        pool.add_predicate(
+                            par,
+                            nr,
+                            Duration::from_millis(pto),
+                            nid(&target),
+                            init.iter().map(|(i, f)| (nid(i), *f)).collect(),
+                        )
+                    } else {
+                        pool.add_findnode(
+                            par,
+                            nr,
+                            Duration::from_millis(pto),
+                            nid(&target),
+                            init.iter().map(|(i, _)| nid(i)).collect(),
+                        )
+                    }
+                }));
+                let Some(id) = id else {
+                    out.push("!MON C09 pool-add-panicked".into());
+                    out.push("panic".into());
+                    return;
+                };
+                if self.pleds.contains_key(&id) {
+                    out.push(format!("!MON C09 query-id-reused id={}", id));
+                }
+                self.pleds.insert(id, Ledger::new(pred, par, nr, pto, target, &init));
+                stats.bump("q.pool.add");
+                out.push(format!("id {}", id));
+            }
+            ["qpok", id, r, closer] => {
+                let (Some(id), Some(closer)) = (num(id), parse_pairs(closer)) else {
+                    out.push("bad-op".into());
+                    return;
+                };
+                let id = id as usize;
+                let Some(pool) = self.pool.as_mut() else {
+                    out.push("none".into());
+                    return;
+                };
+                let Some(led) = self.pleds.get_mut(&id) else {
+                    out.push("gone".into());
+                    return;
+                };
+                match led.resolve(r) {
+                    Ref::Bad => out.push("bad-op".into()),
+                    Ref::None => out.push("none".into()),
+                    Ref::Peer(p) => {
+                        led.on_success(p, &closer, 0, stats);
+                        let reached = no_panic(AssertUnwindSafe(|| pool.on_success(id, &nid(&p), &reported(&closer))));
+                        match reached {
+                            None => {
+                                out.push("!MON C09 pool-on-success-panicked".into());
+                                out.push("panic".into());
+                            }
+                            Some(reached) => {
+                                if reached && self.returned.contains(&id) {
+                                    out.push(format!("!MON C09 event-reached-returned-query id={}", id));
+                                }
+                                out.push(format!("{} {}", if reached { "ok" } else { "gone" }, hex::encode(p)));
+                            }
+                        }
+                    }
+                }
+            }
+            ["qpfail", id, r] => {
+                let Some(id) = num(id) else {
+                    out.push("bad-op".into());
+                    return;
+                };
+                let id = id as usize;
+                let Some(pool) = self.pool.as_mut() else {
+                    out.push("none".into());
+                    return;
+                };
+                let Some(led) = self.pleds.get_mut(&id) else {
+                    out.push("gone".into());
+                    return;
+                };
+                match led.resolve(r) {
+                    Ref::Bad => out.push("bad-op".into()),
+                    Ref::None => out.push("none".into()),
+                    Ref::Peer(p) => {
+                        led.on_failure(p, stats);
+                        let reached = no_panic(AssertUnwindSafe(|| pool.on_failure(id, &nid(&p))));
+                        match reached {
+                            None => {
+                                out.push("!MON C09 pool-on-failure-panicked".into());
+                                out.push("panic".into());
+                            }
+                            Some(reached) => {
+                                if reached && self.returned.contains(&id) {
+                                    out.push(format!("!MON C09 event-reached-returned-query id={}", id));
+                                }
+                                out.push(format!("{} {}", if reached { "ok" } else { "gone" }, hex::encode(p)));
+                            }
+                        }
+                    }
+                }
+            }
+            ["qppoll", now, cap] => {
+                let (Some(_now), Some(cap)) = (num(now), num(cap)) else {
+                    out.push("bad-op".into());
+                    return;
+                };
+                let Some(pool) = self.pool.as_mut() else {
+                    out.push("none".into());
+                    return;
+                };
+                // id -> (requests, final result)
+                let mut log: BTreeMap<usize, (Vec<Id>, Option<(&'static str, Vec<Id>)>)> = BTreeMap::new();
+                let mut fin = "cap";
+                for _ in 0..cap {
+                    let ev = no_panic(AssertUnwindSafe(|| pool.poll()));
+                    let Some(ev) = ev else {
+                        out.push("!MON C09 poll-panicked".into());
+                        fin = "panic";
+                        break;
+                    };
+                    let (id, tag, result) = match ev {
+                        VPoolEvent::Idle => {
+                            fin = "idle";
+                            break;
+                        }
+                        VPoolEvent::WaitingNone => {
+                            fin = "wait";
+                            break;
+                        }
+                        VPoolEvent::Request { id, peer } => {
+                            stats.bump("q.pool.request");
+                            if self.returned.contains(&id) {
+                                out.push(format!("!MON C09 request-after-result id={}", id));
+                            }
+                            match self.pleds.get_mut(&id) {
+                                Some(led) => led.on_emit(peer.raw(), 0, out),
+                                None => out.push(format!("!MON C09 request-for-unknown-query id={}", id)),
+                            }
+                            log.entry(id).or_default().0.push(peer.raw());
+                            continue;
+                        }
+                        VPoolEvent::Finished { id, result } => (id, "F", result),
+                        VPoolEvent::Timeout { id, result } => (id, "T", result),
+                    };
+                    stats.bump(if tag == "F" { "q.pool.finished" } else { "q.pool.timeout" });
+                    if !self.returned.insert(id) {
+                        out.push(format!("!MON C09 result-twice id={}", id));
+                    }
+                    if pool.ids().contains(&id) {
+                        out.push(format!("!MON C09 returned-query-still-in-pool id={}", id));
+                    }
+                    let res: Vec<Id> = result.iter().map(|n| n.raw()).collect();
+                    match self.pleds.get_mut(&id) {
+                        Some(led) => {
+                            if tag == "F" {
+                                led.finished = true;
+                            }
+                            led.check_result(&res, tag == "F", out);
+                            if !res.is_empty() && led.emitted.len() >= 2 {
+                                stats.bump("q.nt.pool");
+                            }
+                        }
+                        None => out.push(format!("!MON C09 result-for-unknown-query id={}", id)),
+                    }
+                    log.entry(id).or_default().1 = Some((tag, res));
+                }
+                if fin == "cap" {
+                    out.push(format!("!MON C09 pool-no-termination polls={}", cap));
+                }
+                let mut parts = Vec::new();
+                for (id, (em, f)) in &log {
+                    let mut s = format!("{}", id);
+                    if !em.is_empty() {
+                        s.push_str(&format!("/e:{}", show_ids(em)));
+                    }
+                    if let Some((tag, res)) = f {
+                        s.push_str(&format!("/{}:{}", tag, show_ids(res)));
+                    }
+                    parts.push(s);
+                }
+                if parts.is_empty() {
+                    out.push(format!("poll {}", fin));
+                } else {
+                    out.push(format!("poll {} {}", parts.join(" "), fin));
+                }
+            }
+            _ => out.push("bad-op".into()),
+        }
+    }
+}
+
+// ---------------------------------------------------------------------------------------------
+// generator
+
+fn id_hex(i: &Id) -> String {
+    hex::encode(i)
+}
+
+fn xor_low(t: &Id, delta: u64) -> Id {
+    let mut o = *t;
+    let d = delta.to_be_bytes();
+    for i in 0..8 {
+        o[24 + i] ^= d[i];
+    }
+    o
+}
+
+fn flip_bit(t: &Id, bit: usize) -> Id {
+    let mut o = *t;
+    o[31 - bit / 8] ^= 1 << (bit % 8);
+    o
+}
+
+/// Ids around the target: the target itself, ids differing only in low bits (distances that
+/// agree in all high bits), single-bit flips at every scale, clusters sharing a high-bit pattern,
+/// and a few random ones.
+fn universe(rng: &mut Rng, target: &Id, n: usize, with_target: bool) -> Vec<Id> {
+    let mut u: Vec<Id> = Vec::new();
+    if with_target {
+        u.push(*target);
+    }
+    let cluster: Id = {
+        let mut c = [0u8; 32];
+        c[0] = rng.below(256) as u8;
+        c[1] = rng.below(256) as u8;
+        c
+    };
+    while u.len() < n {
+        let cand = match rng.below(10) {
+            0..=3 => xor_low(target, rng.range(1, 64)),
+            4 | 5 => flip_bit(target, *rng.pick(&[0usize, 1, 7, 8, 63, 64, 127, 128, 200, 254, 255])),
+            6 | 7 => xor_low(&xor(target, &cluster), rng.range(0, 15)),
+            8 => flip_bit(&xor_low(target, rng.range(1, 8)), 255),
+            _ => rng.bytes(32).try_into().unwrap(),
+        };
+        if !u.contains(&cand) {
+            u.push(cand);
+        }
+    }
+    u
+}
+
+struct GenCtx {
+    ids: Vec<Id>,
+    flags: Vec<bool>,
+    contract: bool,
+}
+
+impl GenCtx {
+    fn pair(&self, rng: &mut Rng, k: usize) -> String {
+        let f = if self.contract || rng.chance(4, 5) { self.flags[k] } else { !self.flags[k] };
+        format!("{}:{}", id_hex(&self.ids[k]), f as u8)
+    }
+    fn closer(&self, rng: &mut Rng, nr: usize) -> String {
+        let n = match rng.below(9) {
+            0 => 0,
+            1 => 4,
+            2 => 1,
+            3 => 2,
+            4 => 3,
+            5 => nr,
+            6 => nr + 2,
+            _ => rng.below(8) as usize,
+        };
+        if n == 0 {
+            return "-".into();
+        }
+        let mut items = Vec::new();
+        for _ in 0..n {
+            // bias to the close end of the universe (index 0.. are not sorted, so pick freely)
+            let k = rng.below(self.ids.len() as u64) as usize;
+            items.push(self.pair(rng, k));
+            if !self.contract && rng.chance(1, 6) {
+                items.push(self.pair(rng, k)); // duplicate inside one response
+            }
+        }
+        items.join(",")
+    }
+    fn init(&self, rng: &mut Rng, nr: usize) -> String {
+        let u = self.ids.len();
+        let n = match rng.below(8) {
+            0 => rng.below(2) as usize,
+            1 => 2,
+            2 => nr.saturating_sub(1),
+            3 => nr,
+            4 => nr + 1,
+            5 => nr + 5,
+            _ => rng.below(u as u64 + 1) as usize,
+        }
+        .min(u);
+        if n == 0 {
+            return "-".into();
+        }
+        let mut idx: Vec<usize> = (0..u).collect();
+        for i in 0..u {
+            let j = i + rng.below((u - i) as u64) as usize;
+            idx.swap(i, j);
+        }
+        let mut items = Vec::new();
+        for &k in idx.iter().take(n) {
+            items.push(self.pair(rng, k));
+            if !self.contract && rng.chance(1, 8) {
+                // the same key again, possibly with another flag (the last one wins in `collect`)
+                items.push(format!("{}:{}", id_hex(&self.ids[k]), rng.below(2)));
+            }
+        }
+        items.join(",")
+    }
+    fn peer_ref(&self, rng: &mut Rng) -> String {
+        if self.contract {
+            return format!("@{}", rng.below(8));
+        }
+        match rng.below(10) {
+            0..=4 => format!("@{}", rng.below(8)),
+            5 | 6 => format!("%{}", rng.below(16)),
+            _ => id_hex(rng.pick(&self.ids)),
+        }
+    }
+}
+
+fn pick_config(rng: &mut Rng, contract: bool) -> (u64, u64, u64) {
+    let mut par = match rng.below(8) {
+        0 | 1 => 1,
+        2 => 2,
+        3 | 4 => 3,
+        5 => 8,
+        _ => rng.range(1, 8),
+    };
+    let mut nr = match rng.below(10) {
+        0 => 1,
+        1 => 2,
+        2 => 3,
+        3 => 4,
+        4 => 8,
+        5 => 16,
+        6 => 24,
+        _ => rng.range(1, 24),
+    };
+    if !contract {
+        if rng.chance(1, 25) {
+            par = 0;
+        }
+        if rng.chance(1, 25) {
+            nr = 0;
+        }
+    }
+    let pto = *rng.pick(&[0u64, 1, 5, 10, 100]);
+    (par, nr, pto)
+}
+
+fn gen_single(rng: &mut Rng, tier: &str, stats: &mut Stats) -> Vec<String> {
+    let mut ops = Vec::new();
+    let contract = rng.chance(3, 5);
+    stats.bump(if contract { "gen.q.contract" } else { "gen.q.adversarial" });
+    let pred = rng.chance(1, 2);
+    let (par, nr, pto) = pick_config(rng, contract);
+    let target: Id = rng.bytes(32).try_into().unwrap();
+    let usize_ = rng.range(3, if tier == "thorough" { 24 } else { 40 }) as usize;
+    let with_target = rng.chance(1, 3);
+    let ids = universe(rng, &target, usize_, with_target);
+    let flags: Vec<bool> = ids.iter().map(|_| rng.chance(3, 5)).collect();
+    let g = GenCtx { ids, flags, contract };
+    ops.push(format!(
+        "qnew {} {} {} {} {} {}",
+        if pred { "p" } else { "f" },
+        par,
+        nr,
+        pto,
+        id_hex(&target),
+        g.init(rng, nr as usize)
+    ));
+    let steps = if tier == "thorough" { rng.range(4, 30) } else { rng.range(10, 70) };
+    let mut now = 0u64;
+    // rough estimate of the requests in flight (the generator never sees replies): it only biases
+    // the choice between polling and answering
+    let mut est: u64 = 0;
+    for _ in 0..steps {
+        let w_next = if est == 0 { 85 } else if est >= par.max(1) { 15 } else { 50 };
+        let r = rng.below(100);
+        if r < w_next {
+            now += *rng.pick(&[0, 0, 0, 0, 1, 1, 1, pto.saturating_sub(1), pto, pto + 1]);
+            ops.push(format!("qnext {}", now));
+            est += 1;
+            if rng.chance(1, 8) {
+                ops.push(format!("qnext {}", now)); // poll twice at the same instant
+            }
+        } else {
+            match rng.below(100) {
+                0..=64 => ops.push(format!("qok {} {}", g.peer_ref(rng), g.closer(rng, nr as usize))),
+                65..=91 => ops.push(format!("qfail {}", g.peer_ref(rng))),
+                _ => ops.push("qpeek".into()),
+            }
+            est = est.saturating_sub(1);
+        }
+    }
+    if rng.chance(4, 5) {
+        now += *rng.pick(&[0, 1, pto]);
+        ops.push(format!("qdrive {} {}", now, 2 * g.ids.len() + 12));
+        if rng.chance(1, 4) {
+            ops.push(format!("qok {} {}", g.peer_ref(rng), g.closer(rng, nr as usize)));
+            ops.push(format!("qnext {}", now + 1000));
+        }
+    }
+    ops.push("qres".into());
+    if rng.chance(1, 10) {
+        ops.push("qnext 999999".into());
+    }
+    ops
+}
+
+fn gen_pool(rng: &mut Rng, tier: &str, stats: &mut Stats) -> Vec<String> {
+    const BIG: u64 = 3_600_000;
+    let mut ops = Vec::new();
+    let contract = rng.chance(3, 5);
+    stats.bump(if contract { "gen.qp.contract" } else { "gen.qp.adversarial" });
+    let tmo = if rng.chance(1, 3) { 0 } else { BIG };
+    ops.push(format!("qpnew {}", tmo));
+    let target: Id = rng.bytes(32).try_into().unwrap();
+    let n_ids = rng.range(3, 20) as usize;
+    let with_target = rng.chance(1, 3);
+    let ids = universe(rng, &target, n_ids, with_target);
+    let flags: Vec<bool> = ids.iter().map(|_| rng.chance(3, 5)).collect();
+    let g = GenCtx { ids, flags, contract };
+    let cap = 6 * g.ids.len() + 30;
+    let mut nq = 0u64;
+    let mut nrs = Vec::new();
+    let add = |rng: &mut Rng, ops: &mut Vec<String>, nq: &mut u64, nrs: &mut Vec<u64>| {
+        let (par, nr, _) = pick_config(rng, contract);
+        let t = if rng.chance(1, 2) { target } else { *rng.pick(&g.ids) };
+        ops.push(format!(
+            "qpadd {} {} {} {} {} {}",
+            if rng.chance(1, 2) { "p" } else { "f" },
+            par,
+            nr,
+            BIG,
+            id_hex(&t),
+            g.init(rng, nr as usize)
+        ));
+        *nq += 1;
+        nrs.push(nr);
+    };
+    for _ in 0..rng.range(1, 4) {
+        add(rng, &mut ops, &mut nq, &mut nrs);
+    }
+    let steps = if tier == "thorough" { rng.range(4, 25) } else { rng.range(10, 50) };
+    let mut now = 0u64;
+    for _ in 0..steps {
+        let id = if !contract && rng.chance(1, 12) { nq + rng.below(3) } else { rng.below(nq) };
+        let nr = nrs.get(id as usize).copied().unwrap_or(3) as usize;
+        match rng.below(100) {
+            0..=34 => {
+                now += rng.below(3);
+                ops.push(format!("qppoll {} {}", now, cap));
+            }
+            35..=74 => ops.push(format!("qpok {} {} {}", id, g.peer_ref(rng), g.closer(rng, nr))),
+            75..=91 => ops.push(format!("qpfail {} {}", id, g.peer_ref(rng))),
+            _ => {
+                if nq < 6 {
+                    add(rng, &mut ops, &mut nq, &mut nrs);
+                }
+            }
+        }
+    }
+    // drive everything to the end: poll, then answer every outstanding request
+    for round in 0..(g.ids.len() as u64 + 3) {
+        ops.push(format!("qppoll {} {}", now + round, cap));
+        for id in 0..nq {
+            for k in 0..3 {
+                if (round + k) % 2 == 0 {
+                    ops.push(format!("qpok {} @0 -", id));
+                } else {
+                    ops.push(format!("qpfail {} @0", id));
+                }
+            }
+        }
+    }
+    ops.push(format!("qppoll {} {}", now + 100, cap));
+    ops.push(format!("qpok 0 %0 -"));
+    ops
+}
+
+pub fn gen_case(rng: &mut Rng, tier: &str, _profile: &str, stats: &mut Stats) -> Vec<String> {
+    // C09 and C10 share the cases; `profile` only selects which monitors count (check.py).
+    if rng.chance(1, 7) {
+        gen_pool(rng, tier, stats)
+    } else {
+        gen_single(rng, tier, stats)
+    }
 }
